@@ -129,6 +129,55 @@ void map2d(vf::Draw &d, vf::Ctx &ctx) {
   if (!O.intact()) ctx.fail("bytes outside the output's extent were written");
 }
 
+// ---- fixed (compile-time range) and dynamic views OF MAPS written at guard pages: a view of a TensorMap must keep using
+// unaligned accesses however "nice" its extents are (innermost extent, start and width all multiples of the vector width)
+// RANK 1: TensorMap<T,N>;  RANK 3: TensorMap<T,2,2,N>.   OP 0: fseq/fall views   1: dynamic seq views
+template <class T, size_t N, int RANK, int OP>
+void mapview(vf::Draw &d, vf::Ctx &ctx) {
+  constexpr size_t TOT = RANK == 1 ? N : 4 * N;
+  static thread_local Buf<T> A, B, O;
+  Place pa = draw_place<T>(d, ctx), pb = draw_place<T>(d, ctx), po = draw_place<T>(d, ctx);
+  T *a = A.place(TOT, pa.mis, pa.end), *b = B.place(TOT, pb.mis, pb.end), *o = O.place(TOT, po.mis, po.end);
+  std::vector<T> va(TOT), vb(TOT), vo(TOT);
+  vf::fill_ints(d, va.data(), TOT, 9); vf::fill_ints(d, vb.data(), TOT, 9); vf::fill_ints(d, vo.data(), TOT, 9);
+  std::copy(va.begin(), va.end(), a); std::copy(vb.begin(), vb.end(), b); std::copy(vo.begin(), vo.end(), o);
+  constexpr size_t VS = SIMDVector<T, DEFAULT_ABI>::Size;
+  ctx.nt(pa.mis != 0 || pb.mis != 0 || po.mis != 0);
+  ctx.label((N % VS) == 0 ? "mapview:extent multiple of V::Size" : "mapview:extent not a multiple");
+  char nb[200]; snprintf(nb, sizeof nb, "%s views of a rank-%d TensorMap (innermost extent %zu, V::Size %zu) written at misalignment a=%zu b=%zu out=%zu", OP ? "seq" : "fseq/fall", RANK, N, VS, pa.mis, pb.mis, po.mis); ctx.note = nb;
+  if constexpr (RANK == 1) {
+    TensorMap<T, N> ma(a), mb(b), mo(o);
+    if constexpr (OP == 0) {
+      C07_CALL(ctx, "mo(fall) = ma(fall) + mb", mo(fall) = ma(fall) + mb);
+      C07_CALL(ctx, "mo(fseq<0,N>()) += ma", mo(fseq<0, N>()) += ma);
+      C07_CALL(ctx, "mo(fall) -= mb(fseq<0,N>())", mo(fall) -= mb(fseq<0, N>()));
+      C07_CALL(ctx, "mo(fall) *= 2", mo(fall) *= T(2));
+    } else {
+      C07_CALL(ctx, "mo(seq(0,N)) = ma(seq(0,N)) + mb", mo(seq(0, (int)N)) = ma(seq(0, (int)N)) + mb);
+      C07_CALL(ctx, "mo(seq(0,N)) += ma", mo(seq(0, (int)N)) += ma);
+      C07_CALL(ctx, "mo(all) -= mb(seq(0,N))", mo(all) -= mb(seq(0, (int)N)));
+      C07_CALL(ctx, "mo(all) *= 2", mo(all) *= T(2));
+    }
+  } else {
+    TensorMap<T, 2, 2, N> ma(a), mb(b), mo(o);
+    if constexpr (OP == 0) {
+      C07_CALL(ctx, "mo(fall,fall,fall) = ma(fall,fall,fall) + mb", mo(fall, fall, fall) = ma(fall, fall, fall) + mb);
+      C07_CALL(ctx, "mo(fall,fall,fseq<0,N>()) += ma", mo(fall, fall, fseq<0, N>()) += ma);
+      C07_CALL(ctx, "mo(fall,fall,fall) -= mb(fall,fall,fseq<0,N>())", mo(fall, fall, fall) -= mb(fall, fall, fseq<0, N>()));
+      C07_CALL(ctx, "mo(fall,fall,fall) *= 2", mo(fall, fall, fall) *= T(2));
+    } else {
+      C07_CALL(ctx, "mo(all,all,seq(0,N)) = ma(all,all,all) + mb", mo(all, all, seq(0, (int)N)) = ma(all, all, all) + mb);
+      C07_CALL(ctx, "mo(all,all,all) += ma", mo(all, all, all) += ma);
+      C07_CALL(ctx, "mo(all,all,all) -= mb(all,all,seq(0,N))", mo(all, all, all) -= mb(all, all, seq(0, (int)N)));
+      C07_CALL(ctx, "mo(all,all,all) *= 2", mo(all, all, all) *= T(2));
+    }
+  }
+  for (size_t i = 0; i < TOT; ++i) { T want = (va[i] + vb[i] + va[i] - vb[i]) * T(2); if (!(o[i] == want)) { ctx.fail("views of a map: position %zu got %s expected %s", i, vfo::show(o[i]).c_str(), vfo::show(want).c_str()); break; } }
+  for (size_t i = 0; i < TOT; ++i) if (!(a[i] == va[i]) || !(b[i] == vb[i])) { ctx.fail("an input buffer was modified at position %zu", i); break; }
+  if (!A.intact() || !B.intact()) ctx.fail("bytes outside an INPUT map were written");
+  if (!O.intact()) ctx.fail("bytes outside the output map's extent were written");
+}
+
 // ---- owning tensors whose (padded) object ends exactly at a guard page -----------------------------------
 // OP 0 sum/inner   1 t2 = t*2 + 1 (both at guard pages)   2 t2 += t; t2 = abs(t2)
 template <class T, size_t N, int OP>
